@@ -38,6 +38,8 @@ type StreamSpec struct {
 	N   int  `json:"n"`
 	Sz  int  `json:"sz"`
 	Dup bool `json:"dup"`
+	Ttl bool `json:"ttl"` // the stream carries the retention pseudo label __ttl_days__ (not part of the stream)
+	Mix bool `json:"mix"` // entries of the stream's container alternate between two label sets (full / bare)
 }
 type Case struct {
 	Kind   string       `json:"kind"`
@@ -46,6 +48,9 @@ type Case struct {
 	Chunks []struct {
 		N, Ntypes, Nseries int
 	} `json:"chunks"`
+	// reference bodies only (one entry of one label set, sent alone)
+	keyOv []int
+	subOv int // 0: none, 1: bare, 2: full
 }
 
 type Row struct {
@@ -92,7 +97,38 @@ func msgOf(i, j, sz int, withText bool) string {
 
 type builder func(c Case, rnd *rand.Rand) (body []byte, ctx context.Context, want []Row, lbl map[int]map[string]string)
 
+// id of a label set: stream label identity k and sub (1 = stream labels + entry-level labels, 0 = stream labels only)
+func id(k, sub int) int { return k*2 + sub }
+
+// subOf: which of the two label sets entry j of stream i belongs to (Chunker.tla LS; j is 0-based here)
+func subOf(c Case, i, j int, mixable bool) int {
+	if c.subOv != 0 {
+		return c.subOv - 1
+	}
+	if mixable && c.Body[i].Mix && j%2 == 1 {
+		return 0
+	}
+	return 1
+}
+
+const ttlLabel, ttlValue = "__ttl_days__", "7"
+
+// submitted labels = the stream's labels plus the pseudo label when the stream carries it
+func withTTL(c Case, i int, m map[string]string) map[string]string {
+	if !c.Body[i].Ttl {
+		return m
+	}
+	r := map[string]string{ttlLabel: ttlValue}
+	for k, v := range m {
+		r[k] = v
+	}
+	return r
+}
+
 func keyOf(c Case, i int) int {
+	if c.keyOv != nil {
+		return c.keyOv[i]
+	}
 	if c.Body[i].Dup {
 		return 0
 	}
@@ -100,7 +136,8 @@ func keyOf(c Case, i int) int {
 }
 
 // entries of stream i (0-based) in submission order
-func entries(c Case, i int, tsUnitNs int64, withText bool, tp uint8) []Row {
+func entries(c Case, i int, tsUnitNs int64, withText bool, tp uint8, mixable ...bool) []Row {
+	mx := len(mixable) > 0 && mixable[0]
 	n := realCount(c.Kind, c.Body[i].N)
 	rows := make([]Row, n)
 	for j := 0; j < n; j++ {
@@ -108,7 +145,7 @@ func entries(c Case, i int, tsUnitNs int64, withText bool, tp uint8) []Row {
 		if tsUnitNs == 1 {
 			ts = int64(baseSec)*1e9 + int64(i)*1000000 + int64(j)*7 + 1
 		}
-		rows[j] = Row{Key: keyOf(c, i), TsNs: ts, Msg: msgOf(i, j, c.Body[i].Sz, withText), Val: float64(i*100000+j) + 0.5, Type: tp}
+		rows[j] = Row{Key: id(keyOf(c, i), subOf(c, i, j, mx)), TsNs: ts, Msg: msgOf(i, j, c.Body[i].Sz, withText), Val: float64(i*100000+j) + 0.5, Type: tp}
 		if tp == 1 {
 			rows[j].Val = 0
 		}
@@ -139,10 +176,11 @@ func lokiJSON(layout string) builder {
 		var streams []string
 		for i := range c.Body {
 			k := keyOf(c, i)
-			lbl[k] = lokiLabels(k)
+			lbl[id(k, 1)] = lokiLabels(k)
 			var lp []string
-			for _, name := range shuffledKeys(lbl[k], rnd) {
-				lp = append(lp, jstr(name)+":"+jstr(lbl[k][name]))
+			sub := withTTL(c, i, lbl[id(k, 1)])
+			for _, name := range shuffledKeys(sub, rnd) {
+				lp = append(lp, jstr(name)+":"+jstr(sub[name]))
 			}
 			es := entries(c, i, 1, true, 1)
 			want = append(want, es...)
@@ -184,10 +222,11 @@ func lokiJSONMetric(c Case, rnd *rand.Rand) ([]byte, context.Context, []Row, map
 	var streams []string
 	for i := range c.Body {
 		k := keyOf(c, i)
-		lbl[k] = lokiLabels(k)
+		lbl[id(k, 1)] = lokiLabels(k)
 		var lp []string
-		for _, name := range shuffledKeys(lbl[k], rnd) {
-			lp = append(lp, jstr(name)+":"+jstr(lbl[k][name]))
+		sub := withTTL(c, i, lbl[id(k, 1)])
+		for _, name := range shuffledKeys(sub, rnd) {
+			lp = append(lp, jstr(name)+":"+jstr(sub[name]))
 		}
 		// values layout: [ts, line, value] carries a line AND a value: the sample is of both kinds (type 0)
 		es := entries(c, i, 1, false, 2)
@@ -210,10 +249,11 @@ func lokiProto(c Case, rnd *rand.Rand) ([]byte, context.Context, []Row, map[int]
 	req := &logproto.PushRequest{}
 	for i := range c.Body {
 		k := keyOf(c, i)
-		lbl[k] = lokiLabels(k)
+		lbl[id(k, 1)] = lokiLabels(k)
 		var lp []string
-		for _, name := range shuffledKeys(lbl[k], rnd) {
-			lp = append(lp, name+"="+fmt.Sprintf("%q", lbl[k][name]))
+		sub := withTTL(c, i, lbl[id(k, 1)])
+		for _, name := range shuffledKeys(sub, rnd) {
+			lp = append(lp, name+"="+fmt.Sprintf("%q", sub[name]))
 		}
 		es := entries(c, i, 1, true, 1)
 		want = append(want, es...)
@@ -236,10 +276,11 @@ func promWrite(c Case, rnd *rand.Rand) ([]byte, context.Context, []Row, map[int]
 	req := &prompb.WriteRequest{}
 	for i := range c.Body {
 		k := keyOf(c, i)
-		lbl[k] = map[string]string{"__name__": fmt.Sprintf("m%d", k), "job": "j"}
+		lbl[id(k, 1)] = map[string]string{"__name__": fmt.Sprintf("m%d", k), "job": "j"}
 		ts := &prompb.TimeSeries{}
-		for _, name := range shuffledKeys(lbl[k], rnd) {
-			ts.Labels = append(ts.Labels, &prompb.Label{Name: name, Value: lbl[k][name]})
+		sub := withTTL(c, i, lbl[id(k, 1)])
+		for _, name := range shuffledKeys(sub, rnd) {
+			ts.Labels = append(ts.Labels, &prompb.Label{Name: name, Value: sub[name]})
 		}
 		es := entries(c, i, 1000000, false, 2)
 		want = append(want, es...)
@@ -266,16 +307,45 @@ func influx(metric bool) builder {
 			if metric {
 				tp = 2
 			}
-			es := entries(c, i, 1, !metric, tp)
-			lbl[k] = map[string]string{"measurement": fmt.Sprintf("meas%d", k), "tag": fmt.Sprintf("t%d", k)}
+			es := entries(c, i, 1, !metric, tp, true)
+			// full label set: metrics: field fld, logs: with the tag; bare label set: metrics: field alt, logs: no tag.
+			// A mixed METRIC stream puts two consecutive entries (fld, alt) on ONE line: one container, two callbacks.
+			lbl[id(k, 1)] = map[string]string{"measurement": fmt.Sprintf("meas%d", k), "tag": fmt.Sprintf("t%d", k)}
+			lbl[id(k, 0)] = map[string]string{"measurement": fmt.Sprintf("meas%d", k)}
 			if metric {
-				lbl[k]["__name__"] = "fld"
+				lbl[id(k, 1)]["__name__"] = "fld"
+				lbl[id(k, 0)]["__name__"] = "alt"
+				lbl[id(k, 0)]["tag"] = fmt.Sprintf("t%d", k)
 			}
-			for _, e := range es {
-				if metric {
-					lines = append(lines, fmt.Sprintf("meas%d,tag=t%d fld=%v %d", k, k, e.Val, e.TsNs))
+			tags := fmt.Sprintf(",tag=t%d", k)
+			if c.Body[i].Ttl {
+				if rnd.Intn(2) == 0 {
+					tags = "," + ttlLabel + "=" + ttlValue + tags
 				} else {
-					lines = append(lines, fmt.Sprintf("meas%d,tag=t%d message=%s %d", k, k, jstr(e.Msg), e.TsNs))
+					tags += "," + ttlLabel + "=" + ttlValue
+				}
+			}
+			fname := map[int]string{1: "fld", 0: "alt"}
+			for j := 0; j < len(es); j++ {
+				e := es[j]
+				if metric {
+					if c.Body[i].Mix && c.subOv == 0 && j+1 < len(es) {
+						es[j+1].TsNs = e.TsNs
+						fs := []string{fmt.Sprintf("fld=%v", e.Val), fmt.Sprintf("alt=%v", es[j+1].Val)}
+						if rnd.Intn(2) == 0 {
+							fs[0], fs[1] = fs[1], fs[0]
+						}
+						lines = append(lines, fmt.Sprintf("meas%d%s %s %d", k, tags, strings.Join(fs, ","), e.TsNs))
+						j++
+						continue
+					}
+					lines = append(lines, fmt.Sprintf("meas%d%s %s=%v %d", k, tags, fname[e.Key%2], e.Val, e.TsNs))
+				} else {
+					t := tags
+					if e.Key%2 == 0 {
+						t = strings.Replace(tags, fmt.Sprintf(",tag=t%d", k), "", 1)
+					}
+					lines = append(lines, fmt.Sprintf("meas%d%s message=%s %d", k, t, jstr(e.Msg), e.TsNs))
 				}
 			}
 			want = append(want, es...)
@@ -291,11 +361,11 @@ func datadogLogs(c Case, rnd *rand.Rand) ([]byte, context.Context, []Row, map[in
 	var items []string
 	for i := range c.Body {
 		k := keyOf(c, i)
-		lbl[k] = map[string]string{"ddsource": fmt.Sprintf("src%d", k), "service": "svc", "type": "datadog", "env": fmt.Sprintf("e%d", k)}
+		lbl[id(k, 1)] = map[string]string{"ddsource": fmt.Sprintf("src%d", k), "service": "svc", "type": "datadog", "env": fmt.Sprintf("e%d", k)}
 		es := entries(c, i, 1000000, true, 1)
 		for _, e := range es {
 			fields := []string{
-				`"ddsource":` + jstr(lbl[k]["ddsource"]), `"service":"svc"`, `"ddtags":` + jstr("env:"+lbl[k]["env"]),
+				`"ddsource":` + jstr(lbl[id(k, 1)]["ddsource"]), `"service":"svc"`, `"ddtags":` + jstr("env:"+lbl[id(k, 1)]["env"]),
 				`"message":` + jstr(e.Msg), fmt.Sprintf(`"timestamp":%d`, e.TsNs/1000000)}
 			rnd.Shuffle(len(fields), func(a, b int) { fields[a], fields[b] = fields[b], fields[a] })
 			items = append(items, "{"+strings.Join(fields, ",")+"}")
@@ -311,13 +381,13 @@ func datadogMetrics(c Case, rnd *rand.Rand) ([]byte, context.Context, []Row, map
 	var items []string
 	for i := range c.Body {
 		k := keyOf(c, i)
-		lbl[k] = map[string]string{"__name__": fmt.Sprintf("dd.m%d", k), "resource1_name": "h", "resource1_type": "host"}
+		lbl[id(k, 1)] = map[string]string{"__name__": fmt.Sprintf("dd.m%d", k), "resource1_name": "h", "resource1_type": "host"}
 		es := entries(c, i, 1000000000, false, 2)
 		var pts []string
 		for _, e := range es {
 			pts = append(pts, fmt.Sprintf(`{"timestamp":%d,"value":%v}`, e.TsNs/1000000000, e.Val))
 		}
-		fields := []string{`"metric":` + jstr(lbl[k]["__name__"]), `"resources":[{"name":"h","type":"host"}]`, `"points":[` + strings.Join(pts, ",") + `]`}
+		fields := []string{`"metric":` + jstr(lbl[id(k, 1)]["__name__"]), `"resources":[{"name":"h","type":"host"}]`, `"points":[` + strings.Join(pts, ",") + `]`}
 		rnd.Shuffle(len(fields), func(a, b int) { fields[a], fields[b] = fields[b], fields[a] })
 		items = append(items, "{"+strings.Join(fields, ",")+"}")
 		want = append(want, es...)
@@ -334,11 +404,21 @@ func otlpLogsB(c Case, rnd *rand.Rand) ([]byte, context.Context, []Row, map[int]
 	}
 	for i := range c.Body {
 		k := keyOf(c, i)
-		lbl[k] = map[string]string{"service_name": fmt.Sprintf("s%d", k), "scope_attr": "x", "rec": "y", "level": "INFO"}
-		es := entries(c, i, 1, true, 1)
-		rl := &otlpLogs.ResourceLogs{Resource: &otlpRes.Resource{Attributes: []*otlpCommon.KeyValue{{Key: "service.name", Value: sv(lbl[k]["service_name"])}}}}
+		// full label set: resource + scope attributes + the record's own attribute and severity text; bare: the record
+		// has neither (all records of a stream sit in ONE scope: one container, one callback per record)
+		lbl[id(k, 1)] = map[string]string{"service_name": fmt.Sprintf("s%d", k), "scope_attr": "x", "rec": "y", "level": "INFO"}
+		lbl[id(k, 0)] = map[string]string{"service_name": fmt.Sprintf("s%d", k), "scope_attr": "x"}
+		es := entries(c, i, 1, true, 1, true)
+		rl := &otlpLogs.ResourceLogs{Resource: &otlpRes.Resource{Attributes: []*otlpCommon.KeyValue{{Key: "service.name", Value: sv(lbl[id(k, 1)]["service_name"])}}}}
+		if c.Body[i].Ttl {
+			rl.Resource.Attributes = append(rl.Resource.Attributes, &otlpCommon.KeyValue{Key: ttlLabel, Value: sv(ttlValue)})
+		}
 		sl := &otlpLogs.ScopeLogs{Scope: &otlpCommon.InstrumentationScope{Attributes: []*otlpCommon.KeyValue{{Key: "scope.attr", Value: sv("x")}}}}
 		for _, e := range es {
+			if e.Key%2 == 0 {
+				sl.LogRecords = append(sl.LogRecords, &otlpLogs.LogRecord{TimeUnixNano: uint64(e.TsNs), Body: sv(e.Msg)})
+				continue
+			}
 			sl.LogRecords = append(sl.LogRecords, &otlpLogs.LogRecord{TimeUnixNano: uint64(e.TsNs), SeverityText: "INFO",
 				Body: sv(e.Msg), Attributes: []*otlpCommon.KeyValue{{Key: "rec", Value: sv("y")}}})
 		}
@@ -358,6 +438,51 @@ type protocol struct {
 	Kind   string
 	Build  builder
 	Parser unmarshal.ParsingFunction
+}
+
+// labelClass: the label-set class of the body (Chunker.tla ttl / mix)
+func labelClass(c Case) string {
+	t, m := false, false
+	for _, s := range c.Body {
+		t = t || s.Ttl
+		m = m || s.Mix
+	}
+	switch {
+	case t && m:
+		return "pseudo-label+mixed-container"
+	case t:
+		return "pseudo-label"
+	case m:
+		return "mixed-container"
+	}
+	return "plain-labels"
+}
+
+var refCache = map[string]uint64{}
+
+// refFp: the fingerprint the label set (k, sub) gets when ONE entry of it is sent alone, without the pseudo label,
+// through the same parser: the reference for "the fingerprint of the entry's own stream"
+func refFp(p protocol, kind string, key int, rnd *rand.Rand) (uint64, error) {
+	ck := fmt.Sprintf("%s/%d", p.Name, key)
+	if fp, ok := refCache[ck]; ok {
+		return fp, nil
+	}
+	rc := Case{Kind: kind, Body: []StreamSpec{{N: 1}}, keyOv: []int{key / 2}, subOv: key%2 + 1}
+	body, ctx, _, _ := p.Build(rc, rnd)
+	var fps []uint64
+	for resp := range p.Parser(ctx, bytes.NewReader(body), &recCache{m: map[uint64]bool{}}) {
+		if resp.Error != nil {
+			return 0, resp.Error
+		}
+		if spl, _ := resp.SamplesRequest.(*model.TimeSamplesData); spl != nil {
+			fps = append(fps, spl.MFingerprint...)
+		}
+	}
+	if len(fps) != 1 {
+		return 0, fmt.Errorf("%d rows", len(fps))
+	}
+	refCache[ck] = fps[0]
+	return fps[0], nil
 }
 
 var protocols = []protocol{
@@ -471,6 +596,35 @@ func runCase(p protocol, c Case, rnd *rand.Rand) *Mismatch {
 	if len(got) != len(want) {
 		return mm("count|"+p.Name+"|"+classify(c), fmt.Sprintf("%d entries submitted, %d rows produced", len(want), len(got)))
 	}
+	if p.Name == "influx-metrics" {
+		// the fields of one line share its timestamp and are decoded in map order: order inside a line is not defined
+		byTsVal := func(r []Row, f []uint64) {
+			idx := make([]int, len(r))
+			for i := range idx {
+				idx[i] = i
+			}
+			sort.SliceStable(idx, func(a, b int) bool {
+				if r[idx[a]].TsNs != r[idx[b]].TsNs {
+					return r[idx[a]].TsNs < r[idx[b]].TsNs
+				}
+				return r[idx[a]].Val < r[idx[b]].Val
+			})
+			r2 := make([]Row, len(r))
+			f2 := make([]uint64, len(f))
+			for i, x := range idx {
+				r2[i] = r[x]
+				if f != nil {
+					f2[i] = f[x]
+				}
+			}
+			copy(r, r2)
+			if f != nil {
+				copy(f, f2)
+			}
+		}
+		byTsVal(want, nil)
+		byTsVal(got, fps)
+	}
 	for i := range want {
 		w, g := want[i], got[i]
 		if w.TsNs != g.TsNs {
@@ -490,6 +644,24 @@ func runCase(p protocol, c Case, rnd *rand.Rand) *Mismatch {
 			return mm("fingerprint|"+p.Name+"|unstable", fmt.Sprintf("row %d: entries of one stream carry different fingerprints %d / %d", i, old, fp))
 		}
 		fpOfKey[w.Key] = fp
+	}
+	// every label set keeps the fingerprint it gets when one entry of it is sent alone (whatever else the body holds,
+	// whichever container it shares with other label sets, with or without the pseudo label)
+	var ids []int
+	for k := range fpOfKey {
+		ids = append(ids, k)
+	}
+	sort.Ints(ids)
+	for _, k := range ids {
+		ref, err := refFp(p, c.Kind, k, rnd)
+		if err != nil {
+			fmt.Fprintf(os.Stderr, "reference body of %s label set %d: %v\n", p.Name, k, err)
+			os.Exit(2)
+		}
+		if ref != fpOfKey[k] {
+			return mm("fingerprint|"+p.Name+"|not-own-stream", fmt.Sprintf("[%s] label set %d (%v): rows carry fingerprint %d, the same stream sent alone gets %d",
+				labelClass(c), k, lbl[k], fpOfKey[k], ref))
+		}
 	}
 	seen := map[uint64]int{}
 	for k, fp := range fpOfKey {
@@ -546,6 +718,7 @@ func main() {
 	runs := 0
 	perProto := map[string]int{}
 	classes := map[string]int{}
+	lclasses := map[string]int{}
 	bigCount := map[string]int{}
 	sigSeen := map[string]int{}
 	for _, c := range cases {
@@ -567,6 +740,7 @@ func main() {
 			runs++
 			perProto[p.Name]++
 			classes[p.Name+"/"+cl]++
+			lclasses[p.Name+"/"+labelClass(c)]++
 			if m != nil {
 				sigSeen[m.Signature]++
 				if sigSeen[m.Signature] <= 3 {
@@ -578,6 +752,7 @@ func main() {
 	res["runs"] = runs
 	res["per_protocol"] = perProto
 	res["classes"] = classes
+	res["label_classes"] = lclasses
 	res["mismatches"] = mms
 	res["signature_counts"] = sigSeen
 	b, _ := json.MarshalIndent(res, "", " ")
